@@ -15,6 +15,10 @@ NamesDef == { <<"a">>, <<"a",":",":","b">>, <<"a",":","b">>, <<>>, <<"a",":",":"
 RefsDef == { <<>>, <<"A">>, <<"Z","B">>, <<"B","A","Y","A">>, <<"Y","Z","B","X","W">> }
 LoggerPoolDef == [name : NamesDef, refs : RefsDef]
 EmptySeqSet == {<<>>}
+\* long logger sequences over a small pool: duplicates that are not adjacent (a, b, a), triples, ...
+AppSeqsSmall == { <<"A">>, <<"A", "B", "A">> }
+RootRefSmall == { <<"A">>, <<"Z">> }
+LoggerPoolSmall == [name : {<<"a">>, <<"b">>, <<"a", ":", "b">>}, refs : {<<>>, <<"Z", "A">>}]
 
 Case == [apps |-> apps, root |-> rootRefs,
          loggers |-> [k \in 1..Len(loggers) |-> [name |-> Str(loggers[k].name), refs |-> loggers[k].refs]],
